@@ -1,4 +1,5 @@
 import Q1t.Proofs.RoutePlace
+import Q1t.Spec.PlaceWord
 /-!
 # C04 (b), (d): the leading-qubit route of every well-formed gate term equals the block product
 with its matrix; `apply_gate_slice` equals the embedded matrix; composites and loops
@@ -43,7 +44,7 @@ theorem prim_pos (g : GateTerm P) (hg : IsPrim g) : 1 ≤ nrBits g := by
 structure LeadOK (g : GateTerm P) : Prop where
   pos : 1 ≤ nrBits g
   wf : WFMat (2 ^ nrBits g) (matrix (α := α) g)
-  lead : ∀ (m : Mode) (w : Nat), OkWidth m w → ∀ N, nrBits g ≤ N → N < 64 →
+  lead : ∀ (m : Mode) (w : Nat), OkWidth m w → ∀ N, nrBits g ≤ N → WordOK g N →
     ∀ v : List (Row α m), v.length = 2 ^ N → RowsW m w v →
       route (α := α) m g v = some (blockMul m w (matrix (α := α) g) (2 ^ (N - nrBits g)) v)
 
@@ -74,7 +75,8 @@ theorem leadOK_C (g : GateTerm P) (ih : LeadOK (α := α) g) : LeadOK (α := α)
     rw [e]
     apply ctrl_spec m w hw (matrix (α := α) g) _ v
       (by rw [ih.wf.1, hlen, pow_split (N - 1) _ (by omega), ← Nat.pow_succ']; congr 1; omega) hv
-    exact ih.lead m w hw (N - 1) (by omega) (by omega) _ hdrop (rowsW_drop m w v _ hv)
+    exact ih.lead m w hw (N - 1) (by omega) (fun h => by have := hN (by simpa [hasComposite] using h); omega)
+      _ hdrop (rowsW_drop m w v _ hv)
 
 
 theorem leadOK_Kron (g0 g1 : GateTerm P) (ih0 : LeadOK (α := α) g0) (ih1 : LeadOK (α := α) g1) :
@@ -106,7 +108,8 @@ theorem leadOK_Kron (g0 g1 : GateTerm P) (ih0 : LeadOK (α := α) g0) (ih1 : Lea
       rw [if_neg (by omega)]
       set t := 2 ^ (N - k0 - k1) with ht
       have hL : 2 ^ (N - k0) = 2 ^ k1 * t := by rw [ht, pow_split (N - k0) k1 (by omega)]
-      rw [ih0.lead .vec w hw N (by omega) hN v hlen hv, Option.bind_some, hL]
+      rw [ih0.lead .vec w hw N (by omega) (fun h => hN (by simp [hasComposite, h])) v hlen hv,
+        Option.bind_some, hL]
       set v1 := blockMul .vec w (matrix (α := α) g0) (2 ^ k1 * t) v with hv1
       have hv1l : v1.length = 2 ^ k0 * (2 ^ k1 * t) := by rw [hv1, blockMul_length, ih0.wf.1]
       have hv1w : RowsW .vec w v1 := blockMul_rowsW .vec w hw _ _ _
@@ -117,7 +120,8 @@ theorem leadOK_Kron (g0 g1 : GateTerm P) (ih0 : LeadOK (α := α) g0) (ih1 : Lea
       rw [blocksMap_spec (2 ^ k0) (2 ^ k1 * t) (by positivity) v1 hv1l (route (α := α) .vec g1)
         (fun i => blockMul .vec w (matrix (α := α) g1) t ((v1.drop (i * (2 ^ k1 * t))).take (2 ^ k1 * t)))
         (fun i hi => by
-          have := ih1.lead .vec w hw (N - k0) (by omega) (by omega) _ (by rw [hblkl i hi, hL])
+          have := ih1.lead .vec w hw (N - k0) (by omega)
+            (fun h => by have := hN (by simp [hasComposite, h]); omega) _ (by rw [hblkl i hi, hL])
             (rowsW_take .vec w _ _ (rowsW_drop .vec w v1 _ hv1w))
           rw [this, ← hk1, ← ht])]
       congr 1
